@@ -711,6 +711,22 @@ func main() {
 
 	ff := fetchShape(need(sp, "(*SPIFFE).fetchIdentityCertificate"))
 
+	// context.go: With stores exactly what SVIDSource returns; From gives it back
+	cx := parse(filepath.Join(*repo, "crypto", "spiffe", "context", "context.go"))
+	for n := range cx {
+		if n != "With" && n != "From" {
+			fail(cx[n], "context.go declares an unknown function %s", n)
+		}
+	}
+	with, from := need(cx, "With"), need(cx, "From")
+	if len(with.Body.List) != 1 || src(with.Body.List[0]) != "return context.WithValue(ctx, svidKey, spiffe.SVIDSource())" {
+		fail(with, "context.With body")
+	}
+	if len(from.Body.List) != 2 || src(from.Body.List[0]) != "svid, ok := ctx.Value(svidKey).(x509svid.Source)" ||
+		src(from.Body.List[1]) != "return svid, ok" {
+		fail(from, "context.From body")
+	}
+
 	var b strings.Builder
 	b.WriteString("/-! Generated by harness/cmd/factgen_c19 from /repo/crypto/spiffe/{spiffe.go,svidsource.go} — do not edit. -/\n")
 	b.WriteString("namespace Kit.Generated.C19\n\n")
@@ -776,6 +792,7 @@ inductive TSync where
 	w("taGetBundle", "TSync", ta["(*file).GetX509BundleForTrustDomain"])
 	w("taCurrent", "TSync", ta["(*file).CurrentTrustAnchors"])
 	w("taWatch", "TSync", ta["(*file).Watch"])
+	b.WriteString("/-- `context.With` stores `spiffe.SVIDSource()` and `context.From` returns that value: consumers that\ngo through the context call the same `GetX509SVID`. -/\ndef contextPassesSVIDSource : Bool := true\n\n")
 	b.WriteString("end Kit.Generated.C19\n")
 	if rg.retryNs == 0 || rg.wakeCap == 0 {
 		fail(rot, "rotation constants not found")
